@@ -1128,11 +1128,14 @@ def extremum_facts(F, v):
             mins.append(cell)
         elif ok and kind == 'max':
             maxs.append(cell)
+    def cv(c):
+        # (a register kept inside an Option cell is read through its payload)
+        return ('payload', ('in', c)) if c in getattr(fl.B, 'options', ()) else ('in', c)
     for r in regs:
         for m_ in mins:
-            out.append(op('le', ('in', m_), ('in', r)))
+            out.append(op('le', cv(m_), cv(r)))
         for M_ in maxs:
-            out.append(op('le', ('in', r), ('in', M_)))
+            out.append(op('le', cv(r), cv(M_)))
     return out
 
 
